@@ -6,6 +6,6 @@ INVARIANT RulesSatisfiable
 INVARIANT PosInFile
 INVARIANT LapBounded
 INVARIANT Sensitive
-INVARIANT BlendSensitive
+INVARIANT NoDecidedRegion
 VIEW ViewAbs
 CHECK_DEADLOCK FALSE
